@@ -46,10 +46,16 @@ def keyClass (toks : List Nat) (key : Nat) : String :=
 
 def bucket (n : Nat) : String := if n ≤ 3 then toString n else if n ≤ 8 then "4-8" else "9+"
 
+/-- the four built-in operations by name (documented masks of the model), others as numeric masks -/
+def parseOpName (s : String) : Option Op :=
+  if s == "W" then some opWrite else if s == "WN" then some opWriteNoExtend
+  else if s == "R" then some opRead else if s == "Rep" then some opReporting
+  else s.toNat?
+
 def handleGet (f : List String) : String × String × String :=
   match f with
   | [cfgS, nowS, descS, keyS, opS, apiS, toksS, idsS, meS, errS] =>
-    match parseCfg cfgS, nowS.toInt?, parseDesc descS, keyS.toNat?, opS.toNat?, natList? toksS, meS.toNat? with
+    match parseCfg cfgS, nowS.toInt?, parseDesc descS, keyS.toNat?, parseOpName opS, natList? toksS, meS.toNat? with
     | some cfg, some now, some d, some key, some op, some obsToks, some obsMe =>
       let rfCall : Int := if apiS == "get" then cfg.rf else ((apiS.drop 4).toString.toInt?).getD 0
       -- correspondence (a): the realised token circle
